@@ -90,6 +90,43 @@ TriggerN(rw, n, rawu, t) ==
   ELSE IF rw = "OTHER" THEN TRUE
   ELSE Trigger(rw, t)
 
+(***************************************************************************)
+(* OnlyOnTrigger, positionally.  "The type has a trigger somewhere" is too  *)
+(* weak a licence: a large union nested in a member of a small union would  *)
+(* excuse collapsing the SMALL union.  A step is EXPLAINED when every        *)
+(* difference between input and output sits at or below a node that itself  *)
+(* carries the rewriter's trigger (LocalTrig); above such nodes the output   *)
+(* has the input's shape - a union's members correspond one to one, or many *)
+(* to one where members coincide after the work done inside them.           *)
+(***************************************************************************)
+MaxOf(rw, n) == IF rw = "RLU2" THEN 2 ELSE IF rw = "RLU5" THEN 5 ELSE n
+LocalTrig(rw, n, t) ==
+  CASE rw = "REC" -> t.k = "union" /\ \E m \in t.u : \E m2 \in t.u : IsEmptyContainer(m) /\ m2.k = m.k /\ IsNonEmptyContainer(m2)
+    [] rw \in {"RLU2", "RLU5", "RLUn"} -> t.k = "union" /\ Cardinality(t.u) > MaxOf(rw, n)
+    [] rw = "RCD" -> t.k = "union" /\ (\A m \in t.u : m.k = "dict") /\ (\A m1 \in t.u : \A m2 \in t.u : m1.a[1] = m2.a[1])
+    [] rw = "MSCB" -> t.k = "union" /\ \A m \in t.u : m.k \in {"cls", "td", "named"}
+    [] rw = "RG" -> t.k = "generator" /\ t.a[2] = TNone /\ t.a[3] = TNone
+    [] rw = "OTHER" -> TRUE
+    [] OTHER -> FALSE
+
+RECURSIVE Explained(_, _, _, _)
+Explained(rw, n, pre, post) ==
+  \/ pre = post
+  \/ LocalTrig(rw, n, pre)
+  \/ /\ pre.k = "union"
+     /\ LET pm == IF post.k = "union" THEN post.u ELSE {post} IN
+          /\ \A m2 \in pm : \E m \in pre.u : Explained(rw, n, m, m2)
+          /\ \A m \in pre.u : \E m2 \in pm : Explained(rw, n, m, m2)
+  \/ /\ pre.k \notin {"union", "td"} /\ post.k = pre.k /\ post.n = pre.n /\ Len(post.a) = Len(pre.a) /\ post.u = pre.u
+     /\ \A j \in 1..Len(pre.a) : Explained(rw, n, pre.a[j], post.a[j])
+  \/ /\ pre.k = "td" /\ post.k = "td" /\ Cardinality(post.u) = Cardinality(pre.u)
+     /\ \A f \in pre.u : \E g \in post.u : g.k = f.k /\ g.n = f.n /\ Explained(rw, n, f.a[1], g.a[1])
+
+\* the real input holds a Union with more members than any union of its abstract image (equal anonymous TypedDicts are distinct
+\* members of a real Union) and more than the maximum: the abstract term cannot place the trigger, the coarse reading stands
+AbsMaxU(t) == IF Unions(t) = {} THEN 0 ELSE CHOOSE c \in {Cardinality(u.u) : u \in Unions(t)} : \A u \in Unions(t) : Cardinality(u.u) <= c
+RawLarger(rw, n, rawu, t) == rw \in {"RLU2", "RLU5", "RLUn"} /\ rawu > MaxOf(rw, n) /\ rawu > AbsMaxU(t)
+
 NeverNarrows(pre, post, seen) ==
   /\ SubG(pre, post)
   /\ \A v \in seen : Member(v, pre) => Member(v, post)
@@ -99,4 +136,6 @@ RewriteViol(rw, n, rawu, pre, post, err, seen) ==
   IF err # "NONE" THEN {"NoCrash"}
   ELSE   (IF NeverNarrows(pre, post, seen) THEN {} ELSE {"NeverNarrows"})
     \cup (IF post # pre /\ ~TriggerN(rw, n, rawu, pre) THEN {"OnlyOnTrigger"} ELSE {})
+    \* (rawu: a real Union may hold more members than the abstract set - equal anonymous TypedDicts; then the coarse reading stands)
+    \cup (IF post # pre /\ ~RawLarger(rw, n, rawu, pre) /\ ~Explained(rw, n, pre, post) THEN {"OnlyOnTrigger"} ELSE {})
 =============================================================================
